@@ -31,6 +31,9 @@ struct ref_out {
 };
 
 static int ref_lex(const uint8_t* in, unsigned n, unsigned pos, unsigned* term, unsigned* len);
+#ifndef REF_LEX_SP   /* the source point at which the lexer is asked (after whitespace skipping): what a custom lexer receives as its sp argument */
+static uint32_t ref_lex_line, ref_lex_col;
+#endif
 
 static inline int ref_is_ws(uint8_t c, int skip_nl) {
   return c == 9 || c == 11 || c == 12 || c == 13 || c == 32 || (skip_nl && c == 10);
@@ -68,7 +71,7 @@ static void ref_parse(const uint8_t* in, unsigned n, int opt_ws, int opt_nl, int
       if (!have) {
         if (opt_ws) { unsigned p2 = pos; while (p2 < n && ref_is_ws(in[p2], opt_nl)) p2++; ref_advance(in, pos, p2, &line, &col); pos = p2; }
         if (pos == n) { term = REF_NT; tlen = 0; }
-        else if (!ref_lex(in, n, pos, &term, &tlen)) { ref_putmsg(o, M_UNEXPECTED_CHAR, line, col, in[pos], 0); o->ok = 0; return; }
+        else if ((ref_lex_line = line, ref_lex_col = col, !ref_lex(in, n, pos, &term, &tlen))) { ref_putmsg(o, M_UNEXPECTED_CHAR, line, col, in[pos], 0); o->ok = 0; return; }
         else if (verbose) ref_putmsg(o, M_RECOGNIZED, line, col, term, 0);
         have = (pos != n);   /* the end-of-input term is re-derived at every step, it occupies no input */
       }
